@@ -293,6 +293,18 @@ func (p *Prog) implicitRecvNonNil(fn *ssa.Function) bool {
 		return false
 	}
 	recv := fn.Params[0]
+	// a receiver that is never used (helper namespaces such as errorHelp) may well be nil
+	used := false
+	if refs := recv.Referrers(); refs != nil {
+		for _, r := range *refs {
+			if _, isDbg := r.(*ssa.DebugRef); !isDbg {
+				used = true
+			}
+		}
+	}
+	if !used {
+		return false
+	}
 	// values derived directly from the receiver (loads from the cell that holds it when captured)
 	derived := map[ssa.Value]bool{recv: true}
 	for _, b := range fn.Blocks {
